@@ -173,20 +173,25 @@ func Template(kind int, seed int64, cfg *Config) *Program {
 	case 7:
 		// a map-called sub-pipeline returns the output of a stage that does not
 		// depend on the mapped input (GEN first: the schedules slow it down, so
-		// the independent stage is done long before the map source is known)
+		// the independent stage is done long before the map source is known),
+		// and one of its own non-split inputs unchanged; both reach the top
+		// level and a consumer stage
+		collI := src(&Stage{Name: "COLL", Ins: []Param{{Name: "xs", Type: wrap(TInt)}, {Name: "ys", Type: wrap(TInt)}}, Outs: []Param{{Name: "n", Type: TInt}}})
+		p.Stages = append(p.Stages, collI)
 		inner := &Pipeline{Name: "INNER", Ins: []Param{{Name: "a", Type: T}, {Name: "k", Type: TInt}},
-			Outs: []Param{{Name: "y", Type: TInt}, {Name: "yi", Type: TInt}},
+			Outs: []Param{{Name: "y", Type: TInt}, {Name: "yi", Type: TInt}, {Name: "kk", Type: TInt}},
 			Calls: []*Call{
 				{Callee: "USE", Alias: "DEP", Binds: []Binding{{Id: "x", Exp: self("a")}}},
 				{Callee: "USE2", Alias: "IND", Binds: []Binding{{Id: "x", Exp: &Exp{Kind: ENull}}, {Id: "w", Exp: self("k")}}},
 			},
-			Ret: []Binding{{Id: "y", Exp: ref("DEP", "y")}, {Id: "yi", Exp: ref("IND", "y")}}}
-		top := &Pipeline{Name: "TOP", Outs: []Param{{Name: "yi", Type: wrap(TInt)}},
+			Ret: []Binding{{Id: "y", Exp: ref("DEP", "y")}, {Id: "yi", Exp: ref("IND", "y")}, {Id: "kk", Exp: self("k")}}}
+		top := &Pipeline{Name: "TOP", Outs: []Param{{Name: "yi", Type: wrap(TInt)}, {Name: "kk", Type: wrap(TInt)}, {Name: "n", Type: TInt}},
 			Calls: []*Call{
 				{Callee: "GEN", Binds: []Binding{{Id: "seed", Exp: lit(s1)}}},
 				{Callee: "INNER", Alias: "M1", Map: true, Binds: []Binding{{Id: "a", Exp: ref("GEN", "arr"), Split: true}, {Id: "k", Exp: lit(s2)}}},
+				{Callee: "COLL", Binds: []Binding{{Id: "xs", Exp: ref("M1", "kk")}, {Id: "ys", Exp: ref("M1", "yi")}}},
 			},
-			Ret: []Binding{{Id: "yi", Exp: ref("M1", "yi")}}}
+			Ret: []Binding{{Id: "yi", Exp: ref("M1", "yi")}, {Id: "kk", Exp: ref("M1", "kk")}, {Id: "n", Exp: ref("COLL", "n")}}}
 		p.Pipelines = []*Pipeline{inner, top}
 	case 8, 9, 10:
 		// file-passing skeletons: a stage mapped over a run-time sized
